@@ -25,6 +25,7 @@ def run(c):
     r2_tables(c)
     r3_blocks(c)
     r4_reverse(c)
+    r5_disorder(c)
 
 
 # --------------------------------------------------------------------------- R1
@@ -293,3 +294,48 @@ def r4_reverse(c, rid="C01.R4"):
     c.floor(rid, "normal .rul rows", n_rows, 780)
     if len(texts) < 13:
         raise AnchorError(f"{rid}: only {len(texts)} .rul files found (expected >= 13)")
+
+
+# --------------------------------------------------------------------------- R5
+def r5_disorder(c):
+    """an added row inside an ordered block puts every following row 'in disorder' (they must be re-created
+    after it, because a device appends new lines at the end of the block)"""
+    repo = c.repo
+    c.rule("C01.R5", "base_diff: the branch that labels a row ADDED also raises the disorder flag read by the MOVED test, so that every following row of "
+                     "the block is re-created after the added one (a device appends new rows at the end of a block; replacing a row in the middle of an "
+                     "%ordered block otherwise leaves the tail in the old position)")
+    m = repo.module(COMMON)
+    fn = repo.func(COMMON, "base_diff")
+    loop = None
+    for st in fn.body:
+        if isinstance(st, ast.For) and norm(st.iter) in ("enumerate(new)", "new"):
+            loop = st
+    if loop is None:
+        raise AnchorError("C01.R5: loop over new not found in base_diff")
+    gm = GuardMap(fn)
+    added = [n for n in walk_no_nested(loop) if isinstance(n, ast.Assign) and op_const(n.value) == "ADDED"]
+    moved_tests = []
+    for n in walk_no_nested(loop):
+        if isinstance(n, ast.If):
+            assigns_moved = any(isinstance(x, ast.Assign) and any(op_const(l) == "MOVED" for l in ast.walk(x.value)) for x in n.body)
+            if assigns_moved:
+                moved_tests.append(n)
+    if len(added) != 1 or not moved_tests:
+        raise AnchorError("C01.R5: ADDED assignment / MOVED branch not found in base_diff")
+    flags = {x.id for x in ast.walk(moved_tests[0].test) if isinstance(x, ast.Name)} - {"row", "index", "old", "new"}
+    flags = {f for f in flags if any(isinstance(n, ast.Assign) and isinstance(n.targets[0], ast.Name) and n.targets[0].id == f
+                                     and isinstance(n.value, ast.Constant) and n.value.value is True for n in walk_no_nested(loop))}
+    if not flags:
+        raise AnchorError("C01.R5: no boolean disorder flag is read by the MOVED test")
+    flag = sorted(flags)[0]
+    blk = added[0]._parent
+    body = blk.body if added[0] in getattr(blk, "body", []) else getattr(blk, "orelse", [])
+    ok = any(isinstance(n, ast.Assign) and isinstance(n.targets[0], ast.Name) and n.targets[0].id == flag and isinstance(n.value, ast.Constant)
+             and n.value.value is True for n in body)
+    c.check("C01.R5", ok, repo.loc(m, added[0]), "base_diff/added-raises-disorder",
+            f"the ADDED branch does not set `{flag} = True`: rows after a row replaced in place keep their op and are not re-created behind the new row",
+            key_text="added-disorder")
+    # the flag is initialised False before the loop and never reset inside it
+    resets = [n for n in walk_no_nested(loop) if isinstance(n, ast.Assign) and isinstance(n.targets[0], ast.Name) and n.targets[0].id == flag
+              and isinstance(n.value, ast.Constant) and n.value.value is False]
+    c.check("C01.R5", not resets, repo.loc(m, resets[0] if resets else loop), "base_diff/disorder-monotone", f"`{flag}` is reset inside the loop", key_text="disorder-reset")
